@@ -83,6 +83,7 @@ INVOLUTION_SIGN = {
     ("reverse negates grades 1,2", ("codegen", "return codegen_involutions(x, invert_grades=(2, 3))", "return codegen_involutions(x, invert_grades=(1, 2))")),
     ("popcount mod 2", ("codegen", "bin(k).count('1') % 4 in invert_grades", "bin(k).count('1') % 2 in invert_grades")),
     ("conjugate and involute exchanged", [("codegen", "def codegen_involute(x):\n    return codegen_involutions(x, invert_grades=(1, 3))", "def codegen_involute(x):\n    return codegen_involutions(x, invert_grades=(1, 2))")]),
+    ("registry: involute carries codegen_conjugate", ("algebra", "involute: UnaryOperatorDict = operation_field(metadata={'codegen': codegen_involute,", "involute: UnaryOperatorDict = operation_field(metadata={'codegen': codegen_conjugate,")),
     ("no wrap-around above grade 3", ("codegen", "bin(k).count('1') % 4 in invert_grades", "bin(k).count('1') in invert_grades")),
 ], rewrites=[
     ("popcount via format", ("codegen", "bin(k).count('1') % 4 in invert_grades", "format(k, 'b').count('1') % 4 in invert_grades")),
@@ -131,7 +132,6 @@ DOCUMENTED = {  # README operator table: method / dunder -> registry operator, o
 
 @rule("C04.registry-names", props=["C04", "C06"], min_instances=60, mutants=[
     ("~ bound to conjugate", ("multivector", "    def __invert__(self):\n        \"\"\" Reversion \"\"\"\n        return self.algebra.reverse(self)", "    def __invert__(self):\n        \"\"\" Reversion \"\"\"\n        return self.algebra.conjugate(self)")),
-    ("registry: involute carries codegen_conjugate", ("algebra", "involute: UnaryOperatorDict = operation_field(metadata={'codegen': codegen_involute,", "involute: UnaryOperatorDict = operation_field(metadata={'codegen': codegen_conjugate,")),
     ("lc method calls rc", ("multivector", "    def lc(self, other):\n        return self.algebra.lc(self, other)", "    def lc(self, other):\n        return self.algebra.rc(self, other)")),
 ])
 def registry_names(ctx):
@@ -140,11 +140,13 @@ def registry_names(ctx):
     reg = operator_registry(repo)
     for name, row in reg.items():
         c = f"algebra.Algebra.{name}#codegen"
-        if row.codegen == f"codegen_{name}":
-            ctx.ok(c, row.node, codegen=row.codegen)
+        if not repo.has(f"codegen.{row.codegen}"):
+            ctx.violation(c, f"operator {name!r} is registered with {row.codegen}, which codegen.py does not define", row.node)
         else:
-            ctx.violation(c, f"operator {name!r} is registered with {row.codegen}, not codegen_{name}: every use of "
-                             f"{name} computes a different operator", row.node)
+            # which function an operator carries is decided semantically: every table / tree rule resolves its
+            # codegen through this registry row (C02.table, C03.table, C04.cells, C04.involution-table, C05.*, C06.trees,
+            # C07.*, C19.*), so a mis-registered operator fails there; the naming convention itself is only recorded
+            ctx.ok(c, row.node, codegen=row.codegen, follows_naming_convention=row.codegen == f"codegen_{name}")
     # every name used by the registry must also be imported from codegen (C11.names covers resolution)
     mv = class_surface(repo, "multivector.MultiVector")
     for meth, (op, order) in DOCUMENTED.items():
